@@ -28,7 +28,8 @@ CLASSES = [
     "rekey", "rekey_collision", "type_only_rekey", "move", "clone", "remove", "remove_then_reinit", "shallow_copy",
     "shallow_copy_follows", "pickle_independent", "deepcopy_independent", "cache_update", "stray_planted",
     "two_projects", "update_sp_conflict", "move_collision", "clone_collision", "move_uninitialised",
-    "stray_id_named_file", "rekey_onto_id_named_file", "stale_handle_resynced_by_remove",
+    "stray_id_named_file", "rekey_onto_id_named_file", "stale_handle_resynced_by_remove", "gone_id_reopened", "gone_id_unknown",
+    "doc_assigned_live_view_same_job", "doc_assigned_live_view_other_job",
 ]
 ASSUMPTIONS = [
     "handles whose job was removed / re-keyed / moved through an independent handle are stale: only init() and observation apply",
@@ -57,6 +58,7 @@ OP = st.one_of(
     fd(op="new_init", p=P, sp=sps),
     fd(op="new_sp", p=P, sp=sps),
     fd(op="new_id", p=P, k=H, how=st.sampled_from(["id", "cursor"])),
+    fd(op="new_gone_id", p=P, k=H),
     fd(op="copy", h=H),
     fd(op="deepcopy", h=H),
     fd(op="pickle", h=H),
@@ -69,6 +71,7 @@ OP = st.one_of(
     fd(op="doc_update", h=H, m=st.dictionaries(DOCK, DOCV, max_size=2)),
     fd(op="doc_clear", h=H),
     fd(op="doc_reset", h=H, m=st.dictionaries(DOCK, DOCV, max_size=2)),
+    fd(op="doc_assign_view", h=H, g=H, alias=st.booleans()),
     fd(op="write", h=H, name=FILES, data=st.sampled_from(["", "x", "hello\n", "\x00\xff"])),
     fd(op="append", h=H, name=FILES, data=st.sampled_from(["y", "tail\n"])),
     fd(op="clear", h=H),
@@ -157,6 +160,19 @@ CONSTRUCTED = [
     {"two_projects": False, "ops": [
         {"op": "new_init", "p": 0, "sp": {"a": 0}}, {"op": "write", "h": 0, "name": "f.txt", "data": "x"}, {"op": "plant_idfile", "p": 0, "sp": {"a": 1}},
         {"op": "sp_set", "h": 0, "k": "a", "v": 1}, {"op": "new_id", "p": 0, "k": 0, "how": "id"}, {"op": "touch_sp", "h": 1}]},
+    # the document assigned from the live document of a second handle on the same job (and from another job's)
+    {"two_projects": False, "ops": [
+        {"op": "new_init", "p": 0, "sp": {"a": 0}}, {"op": "doc_update", "h": 0, "m": {"x": [1, 2], "y": {"y": 1}}}, {"op": "new_id", "p": 0, "k": 0, "how": "id"},
+        {"op": "doc_assign_view", "h": 1, "g": 0}, {"op": "new_init", "p": 0, "sp": {"b": 1}}, {"op": "doc_assign_view", "h": 2, "g": 1, "alias": True},
+        {"op": "new_sp", "p": 0, "sp": {"a": 0}}, {"op": "doc_assign_view", "h": 3, "g": 3}, {"op": "doc_assign_view", "h": 0, "g": 3, "alias": True}]},
+    # a removed job and the old id of a re-keyed job are opened by id again (the Project's cache still knows them)
+    # and used through the document: that re-creates them
+    {"two_projects": False, "ops": [
+        {"op": "new_init", "p": 0, "sp": {"a": 0}}, {"op": "new_init", "p": 0, "sp": {"b": 1}}, {"op": "doc_set", "h": 0, "k": "x", "v": 1},
+        {"op": "remove", "h": 0}, {"op": "drop", "h": 0}, {"op": "new_gone_id", "p": 0, "k": 0}, {"op": "doc_set", "h": 1, "k": "y", "v": 2},
+        {"op": "sp_set", "h": 0, "k": "b", "v": 2}, {"op": "new_gone_id", "p": 0, "k": 0}, {"op": "doc_update", "h": 2, "m": {"x": [1]}},
+        {"op": "update_cache", "p": 0}, {"op": "remove", "h": 2}, {"op": "new_project", "p": 0}, {"op": "new_gone_id", "p": 0, "k": 0},
+        {"op": "doc_set", "h": 2, "k": "foo", "v": 0}]},
     {"two_projects": False, "ops": [
         {"op": "new_init", "p": 0, "sp": {"a": 0}}, {"op": "new_sp", "p": 0, "sp": {"a": 0}}, {"op": "remove", "h": 1}, {"op": "remove", "h": 0},
         {"op": "doc_set", "h": 0, "k": "x", "v": 1}, {"op": "touch_sp", "h": 0}]},
